@@ -68,9 +68,8 @@ pub fn seq_ord_2w<A: Codec, const N: usize>(n: usize) {
     assume((ux as usize) < (1 << hb) && (uy as usize) < (1 << hb));
     let wx = [LOW | ((tx as usize) << 56), ux as usize];
     let wy = [LOW | ((ty as usize) << 56), uy as usize];
-    let (ax, ay) = (arr::<A, N, 2>(wx), arr::<A, N, 2>(wy));
-    let sx: Seq<A> = owned_cap(&ax, 0, n, n);
-    let sy: Seq<A> = owned_cap(&ay, 0, n, n);
+    let sx: Seq<A> = owned2::<A>(wx[0], wx[1], n);
+    let sy: Seq<A> = owned2::<A>(wy[0], wy[1], n);
     let want = if ux != uy { ux.cmp(&uy) } else { tx.cmp(&ty) };
     let got = sx.cmp(&sy);
     assert!(got == want, "C10.seq.cmp_is_colexicographic_two_words");
@@ -192,8 +191,8 @@ harnesses! {
     fn c10_q_seq_dna_n2 [10] { seq_ord::<Dna>(2); }
     fn c10_q_seq_dna_n4 [10] { seq_ord::<Dna>(4); }
     fn c10_q_seq_mdna_n2 [10] { seq_ord::<masked::Dna>(2); }
-    fn c10_p_seq_dna_n33 [70] { seq_ord_2w::<Dna, 64>(33); }
-    fn c10_p_seq_amino_n11 [70] { seq_ord_2w::<Amino, 21>(11); }
+    fn c10_q_seq_dna_n33 [70] { seq_ord_2w::<Dna, 64>(33); }
+    fn c10_t_seq_amino_n11 [70] { seq_ord_2w::<Amino, 21>(11); }
     fn c10_t_seq_dna_n3 [10] { seq_ord::<Dna>(3); }
     fn c10_t_seq_dna_n16 [34] { seq_ord::<Dna>(16); }
     fn c10_t_seq_miupac_n3 [18] { seq_ord::<masked::Iupac>(3); }
